@@ -7,7 +7,10 @@
    The module has two layers:
      - the reference (what the property states): Pick, AuthExpect, UpExpect, PlainAllowed;
      - the implementation-shaped scan (one action per decision of the code): Accept (Conn: Enabled / inspector
-       peek), Hello, Scan (one provider of GetConfigForClient's loop), Decide, Auth, UpHandshake,
+       peek), Hello, Scan (one provider of GetConfigForClient's loop), Decide, Auth, UpHandshake; a peer that comes
+       back (Return: it keeps the session ticket of its first handshake; Expire: its short-lived certificate runs
+       out; Push: the policy moves on) and is served by an abbreviated handshake (Resume: crypto/tls
+       doResumeHandshake / checkForResumption -> processCertsFromClient) or a full one,
        with the named ways the design can go wrong as `Defects` switches.
    TLC checks that the scan refines the reference for every case of the universe (constants SrvCases,
    UpCases), and emits every case for the replay driver.
@@ -19,6 +22,10 @@ EXTENDS Integers, Sequences, FiniteSets, TLC, Json
 CONSTANTS SrvCases,   \* set of [side: "srv", ctxs: Seq(Ctx), upds: Seq(Upd), insp: BOOLEAN, first: "tls"|"plain", hello: Hello]
           UpCases,    \* set of [side: "up", cfg: [sn, skip, ca], upds: Seq(Upd), cert: [names, ca, expired]]
           Defects     \* {} = intended design
+(* A case with the optional field res: [expire: BOOLEAN] is a RETURNING peer: it handshakes once under the initial
+   configuration (a full handshake; a successful one leaves it with a session ticket / PSK), then the update history is
+   pushed and / or (expire) its short-lived certificate runs out, then it connects again offering the ticket. The second
+   connection is judged like every other one: by the policy in force NOW and the validity of the certificate NOW. *)
 
 (*  Ctx   == [names: SUBSET Name, sn: Name, alpn: SUBSET STRING, ready, verify, require: BOOLEAN, ca: STRING]
     Hello == [sni: Name, up: BOOLEAN, alpn: SUBSET STRING, peer: PeerKind, vers: {12, 13}]
@@ -37,12 +44,16 @@ CONSTANTS SrvCases,   \* set of [side: "srv", ctxs: Seq(Ctx), upds: Seq(Upd), in
 PeerKinds == {"none", "self", "ca1", "ca2", "exp1", "nokey1"}
 (* none: no certificate; self: self-signed; ca1/ca2: valid leaf of that CA with its key; exp1: expired leaf of
    ca1; nokey1: valid leaf of ca1 presented without the matching private key (no proof of possession) *)
+ShortLived == {"short1"}
+(* short1 (returning peers only): leaf of ca1 with its key whose validity ends a moment after it was issued: valid
+   when the peer connects first, expired once the time has passed (`late`) *)
 
 Star == "*"
 Min(S) == CHOOSE x \in S : \A y \in S : x <= y
 
 (* ------------------------------------------------------------------ update histories *)
 IsRace(c) == "race" \in DOMAIN c
+IsRes(c) == "res" \in DOMAIN c
 Src(c, f) == IF f \in DOMAIN c THEN c[f] ELSE "any"
 How(u) == IF "how" \in DOMAIN u THEN u.how ELSE "auto"
 SetField(c, u) ==
@@ -83,24 +94,32 @@ Pick(cs, h) == IF ByName(cs, h) # {} THEN Min(ByName(cs, h))
                ELSE IF ByAlpn(cs, h) # {} THEN Min(ByAlpn(cs, h))
                ELSE IF ReadyIdx(cs) # {} THEN Min(ReadyIdx(cs)) ELSE 0
 
-(* the peer proved possession of an unexpired certificate chaining to `ca` *)
-PeerValid(p, ca) == p \in {"ca1", "ca2"} /\ p = ca
-PeerHasKey(p) == p \in {"self", "ca1", "ca2", "exp1"}
+(* the peer proved possession of an unexpired certificate chaining to `ca`; late: the short-lived certificates have run out *)
+PeerValidAt(p, ca, late) == \/ p \in {"ca1", "ca2"} /\ p = ca
+                            \/ p = "short1" /\ ca = "ca1" /\ ~late
+PeerValid(p, ca) == PeerValidAt(p, ca, FALSE)
+PeerHasKey(p) == p \in {"self", "ca1", "ca2", "exp1", "short1"}
 
 Mode(c) == IF c.require /\ c.verify THEN "RequireAndVerify"
            ELSE IF c.verify THEN "VerifyIfGiven"
            ELSE IF c.require THEN "Request" ELSE "NoCert"
-(* "ok" / "fail" / "any" (the property does not decide) *)
-AuthByMode(m, c, p) ==
-  CASE m = "RequireAndVerify" -> IF PeerValid(p, c.ca) THEN "ok" ELSE "fail"
-    [] m = "VerifyIfGiven"    -> IF p = "none" \/ PeerValid(p, c.ca) THEN "ok" ELSE "fail"
+(* "ok" / "fail" / "any" (the property does not decide); valid: the peer's certificate chains to the configured CA now *)
+AuthByModeV(m, valid, p) ==
+  CASE m = "RequireAndVerify" -> IF valid THEN "ok" ELSE "fail"
+    [] m = "VerifyIfGiven"    -> IF p = "none" \/ valid THEN "ok" ELSE "fail"
     [] m = "Request"          -> IF PeerHasKey(p) THEN "ok" ELSE "any"
     [] OTHER                  -> "ok"      \* no certificate is requested, none is sent
-AuthExpect(c, p) == AuthByMode(Mode(c), c, p)
+AuthByMode(m, c, p) == AuthByModeV(m, PeerValid(p, c.ca), p)
+(* EVERY handshake of a peer is judged by this, a later one that offers a session ticket / PSK too: resuming a session
+   is an optimisation of the key exchange, not of the policy. (Declining the ticket and doing a full handshake is fine.) *)
+AuthExpectAt(c, p, late) == AuthByModeV(Mode(c), PeerValidAt(p, c.ca, late), p)
+AuthExpect(c, p) == AuthExpectAt(c, p, FALSE)
 
 PlainAllowed(insp) == insp
 
 UpChainOK(cfg, cert) == cert.ca = cfg.ca /\ ~cert.expired
+(* the upstream's certificate as it is now: one issued short-lived (optional field short) has run out when `late` *)
+CertAt(cert, late) == IF "short" \in DOMAIN cert /\ cert.short /\ late THEN [cert EXCEPT !.expired = TRUE] ELSE cert
 UpExpect(cfg, cert) == IF cfg.skip THEN "ok"
                        ELSE IF ~UpChainOK(cfg, cert) THEN "fail"
                        ELSE IF cfg.sn = <<>> THEN "any"        \* no name to verify against: refusing is fine
@@ -112,8 +131,11 @@ VARIABLES cs,       \* the case (configuration + update history + input)
           todo,     \* updates not pushed yet
           rc,       \* the two concurrent writers of a race case (SDS rotation / config update), see below
           pools,    \* CA pools parsed from files so far: set of <<pos, capath, ca>> (only read by the defect PoolCachedByPath)
+          sess,     \* the peer across its connections: [phase: "first"|"final", ticket: what it holds, late: its short-lived
+                    \* certificate has run out, resumed: the handshake that just ended was an abbreviated one]
           pc, i, dflt, afirst, chosen, served, result
-vars == <<cs, live, todo, rc, pools, pc, i, dflt, afirst, chosen, served, result>>
+vars == <<cs, live, todo, rc, pools, sess, pc, i, dflt, afirst, chosen, served, result>>
+NoTicket == [peer |-> "-", pos |-> 0]
 
 (* what the generated hash value covers (confighook.go GenerateHashValue): leaf certificate chain, ALPN, ClientAuth,
    ciphers/curves/versions - NOT the CA pools, the server name or InsecureSkipVerify *)
@@ -130,11 +152,18 @@ NameMatch(c, sni) == Cands(sni) \cap Matches(c) # {}
 AlpnMatch(c, protos) == \E t \in protos : <<t>> \in AlpnTokens(c)
 
 ImplMode(c) == IF "IfGivenForRequire" \in Defects /\ c.verify THEN "VerifyIfGiven" ELSE Mode(c)
-ImplAuth(c, p) == AuthByMode(ImplMode(c), c, p)
+ImplAuthAt(c, p, late) == AuthByModeV(ImplMode(c), PeerValidAt(p, c.ca, late), p)
+(* abbreviated handshake (TLS 1.2 ticket: doResumeHandshake, TLS 1.3 PSK: checkForResumption): the chain stored in the
+   ticket goes through processCertsFromClient like a chain received in a Certificate message - against the ClientCAs of
+   the configuration selected NOW, at the time NOW. The named way to go wrong: "it was verified when the ticket was
+   issued" - only presence is still checked *)
+ResumeAuth(c, p, late) == IF "ResumeSkipsVerification" \in Defects THEN AuthByModeV(ImplMode(c), p # "none", p)
+                          ELSE ImplAuthAt(c, p, late)
 Outcomes(e) == IF e = "any" THEN {"ok", "fail"} ELSE {e}
 
 Init == /\ cs \in SrvCases \cup UpCases
-        /\ live = (IF cs.side = "srv" THEN Listener(cs) ELSE cs.cfg) /\ todo = (IF IsRace(cs) THEN <<>> ELSE cs.upds)
+        /\ live = (IF cs.side = "srv" THEN Listener(cs) ELSE cs.cfg) /\ todo = (IF IsRace(cs) \/ IsRes(cs) THEN <<>> ELSE cs.upds)
+        /\ sess = [phase |-> IF IsRes(cs) THEN "first" ELSE "final", ticket |-> NoTicket, late |-> FALSE, resumed |-> FALSE]
         /\ rc = [rpc |-> IF IsRace(cs) THEN "idle" ELSE "done", upc |-> IF IsRace(cs) THEN "idle" ELSE "done", lock |-> "-",
                  cfgv |-> 0, matv |-> 0, rseen |-> 0, rb |-> <<0, 0>>, ub |-> <<0, 0>>, stored |-> <<0, 0>>,
                  sch |-> <<>>, cur |-> {<<0, 0>>}]
@@ -160,7 +189,7 @@ Compose(cv, mv) == LET base == IF Srv THEN Listener(cs) ELSE cs.cfg
                        a == IF mv = 1 THEN ApplyUpd(base, cs.upds[1]) ELSE base
                    IN IF cv = 1 THEN ApplyUpd(a, cs.upds[2]) ELSE a
 RKeeps == Locked /\ "RotationBuildsOutsideLock" \notin Defects     \* the rotation keeps the lock until its context is stored
-Rest == <<cs, todo, pools, pc, i, dflt, afirst, chosen, served, result>>
+Rest == <<cs, todo, pools, sess, pc, i, dflt, afirst, chosen, served, result>>
 
 RStart == /\ rc.rpc = "idle" /\ (Locked => rc.lock = "-")
           /\ rc' = [rc EXCEPT !.rpc = "set", !.matv = 1, !.lock = IF RKeeps THEN "R" ELSE @, !.sch = Append(@, "Ra"),
@@ -181,10 +210,11 @@ UStore == /\ rc.upc = "built"
           /\ live' = Compose(rc.ub[1], rc.ub[2]) /\ UNCHANGED Rest
 Race == RStart \/ RRead \/ RBuild \/ RStore \/ UStart \/ UBuild \/ UStore
 Ctxs == live.ctxs                             \* what the scan runs on
-RefL == ApplyAll(Listener(cs), cs.upds)       \* what the property judges by: the last pushed configuration
+First == IsRes(cs) /\ sess.phase = "first"     \* a returning peer's first connection: nothing has been pushed yet
+RefL == IF First THEN Listener(cs) ELSE ApplyAll(Listener(cs), cs.upds)       \* what the property judges by: the last pushed configuration
 RefCtxs == RefL.ctxs
 RefInsp == RefL.insp
-RefCfg == ApplyAll(cs.cfg, cs.upds)
+RefCfg == IF First THEN cs.cfg ELSE ApplyAll(cs.cfg, cs.upds)
 
 (* a runtime update: sdsProvider.setValidation / setCertificate / updateConfig -> update(), or a new manager built
    from the updated listener config. The named way to go wrong: the rebuilt context is dropped when "nothing changed" *)
@@ -205,7 +235,23 @@ Push == /\ pc = "accept" /\ todo # <<>>
                    ELSE /\ live' = nl
                         /\ pools' = IF fileCa THEN (pools \ hit) \cup { <<u.pos, Target(nl, u).capath, Target(nl, u).ca>> } ELSE pools
         /\ todo' = Tail(todo)
-        /\ UNCHANGED <<cs, rc, pc, i, dflt, afirst, chosen, served, result>>
+        /\ UNCHANGED <<cs, rc, sess, pc, i, dflt, afirst, chosen, served, result>>
+
+(* ------------------------------------------------------------------ a returning peer
+   After its first connection the peer keeps what the server gave it: a successful handshake leaves it with a session
+   ticket (TLS 1.2) / PSK (TLS 1.3) sealing the certificate chain it presented. Then the world moves on - the update
+   history is pushed (Push), its short-lived certificate runs out (Expire) - and it connects again (Accept .. Decide as
+   for everybody), offering the ticket: the server may honour it (Resume) or decline and run the full handshake (Auth). *)
+Return == /\ pc = "done" /\ sess.phase = "first"
+          /\ sess' = [sess EXCEPT !.phase = "final", !.resumed = FALSE,
+                                   !.ticket = IF result # "ok" THEN NoTicket
+                                              ELSE IF Srv THEN [peer |-> cs.hello.peer, pos |-> chosen] ELSE [peer |-> "upstream", pos |-> 0]]
+          /\ todo' = cs.upds
+          /\ pc' = "accept" /\ i' = 0 /\ dflt' = 0 /\ afirst' = 0 /\ chosen' = 0 /\ served' = "-" /\ result' = "-"
+          /\ UNCHANGED <<cs, live, rc, pools>>
+Expire == /\ pc = "accept" /\ IsRes(cs) /\ sess.phase = "final" /\ cs.res.expire /\ ~sess.late
+          /\ sess' = [sess EXCEPT !.late = TRUE]
+          /\ UNCHANGED <<cs, live, todo, rc, pools, pc, i, dflt, afirst, chosen, served, result>>
 
 (* serverContextManager.Conn *)
 Accept == /\ pc = "accept" /\ Srv /\ todo = <<>> /\ RaceDone
@@ -217,13 +263,13 @@ Accept == /\ pc = "accept" /\ Srv /\ todo = <<>> /\ RaceDone
              ELSE IF live.insp /\ cs.first = "plain"       \* Peek(): first byte is not 0x16
                   THEN served' = "plain" /\ pc' = "done" /\ result' = "plain"
                   ELSE served' = "tls" /\ pc' = "hello" /\ result' = result
-          /\ UNCHANGED <<cs, live, todo, rc, pools, i, dflt, afirst, chosen>>
+          /\ UNCHANGED <<cs, live, todo, rc, pools, sess, i, dflt, afirst, chosen>>
 
 (* tls.Server reads the first record *)
 Hello == /\ pc = "hello"
          /\ IF cs.first = "plain" THEN pc' = "done" /\ result' = "fail" /\ i' = i
                                   ELSE pc' = "scan" /\ result' = result /\ i' = 1
-         /\ UNCHANGED <<cs, live, todo, rc, pools, dflt, afirst, chosen, served>>
+         /\ UNCHANGED <<cs, live, todo, rc, pools, sess, dflt, afirst, chosen, served>>
 
 (* one iteration of the loop in GetConfigForClient *)
 Scan == /\ pc = "scan" /\ i <= Len(Ctxs)
@@ -234,26 +280,38 @@ Scan == /\ pc = "scan" /\ i <= Len(Ctxs)
                      THEN chosen' = i /\ pc' = "auth" /\ UNCHANGED <<afirst, i>>
                      ELSE /\ afirst' = IF afirst = 0 /\ AlpnMatch(c, cs.hello.alpn) THEN i ELSE afirst
                           /\ i' = i + 1 /\ UNCHANGED <<chosen, pc>>
-        /\ UNCHANGED <<cs, live, todo, rc, pools, served, result>>
+        /\ UNCHANGED <<cs, live, todo, rc, pools, sess, served, result>>
 
 Decide == /\ pc = "scan" /\ i > Len(Ctxs)
           /\ chosen' = IF afirst # 0 THEN afirst ELSE dflt
           /\ IF chosen' = 0 THEN pc' = "done" /\ result' = "fail" ELSE pc' = "auth" /\ result' = result
-          /\ UNCHANGED <<cs, live, todo, rc, pools, i, dflt, afirst, served>>
+          /\ UNCHANGED <<cs, live, todo, rc, pools, sess, i, dflt, afirst, served>>
 
-(* the handshake under the chosen context's ClientAuth / ClientCAs *)
+(* the full handshake under the chosen context's ClientAuth / ClientCAs, at the present time *)
 Auth == /\ pc = "auth"
-        /\ result' \in Outcomes(ImplAuth(Ctxs[chosen], cs.hello.peer))
-        /\ pc' = "done"
+        /\ result' \in Outcomes(ImplAuthAt(Ctxs[chosen], cs.hello.peer, sess.late))
+        /\ pc' = "done" /\ sess' = [sess EXCEPT !.resumed = FALSE]
         /\ UNCHANGED <<cs, live, todo, rc, pools, i, dflt, afirst, chosen, served>>
+(* the abbreviated handshake: the peer offered a ticket the server can open; the chain it seals stands for the peer *)
+Resume == /\ pc = "auth" /\ sess.ticket # NoTicket
+          /\ result' \in Outcomes(ResumeAuth(Ctxs[chosen], sess.ticket.peer, sess.late))
+          /\ pc' = "done" /\ sess' = [sess EXCEPT !.resumed = (result' = "ok")]
+          /\ UNCHANGED <<cs, live, todo, rc, pools, i, dflt, afirst, chosen, served>>
 
-(* clientContextManager.Conn: handshake towards the upstream *)
+(* clientContextManager.Conn: handshake towards the upstream. MOSN's client configuration has no session cache: every
+   connection to an upstream is a full handshake, verified against the cluster's tls config and the clock of that moment *)
 UpHandshake == /\ pc = "accept" /\ ~Srv /\ todo = <<>> /\ RaceDone
-               /\ result' \in IF "SkipVerifyLeftOn" \in Defects THEN {"ok"} ELSE Outcomes(UpExpect(live, cs.cert))
-               /\ pc' = "done" /\ served' = "tls"
+               /\ result' \in IF "SkipVerifyLeftOn" \in Defects THEN {"ok"} ELSE Outcomes(UpExpect(live, CertAt(cs.cert, sess.late)))
+               /\ pc' = "done" /\ served' = "tls" /\ sess' = [sess EXCEPT !.resumed = FALSE]
                /\ UNCHANGED <<cs, live, todo, rc, pools, i, dflt, afirst, chosen>>
+(* the named way to go wrong: a client session cache - the forked client restores the server's chain from the cached
+   session without verifying it again, whatever happened to the certificate or the cluster's CA since *)
+UpResume == /\ pc = "accept" /\ ~Srv /\ todo = <<>> /\ RaceDone
+            /\ "UpstreamSessionCache" \in Defects /\ sess.ticket # NoTicket
+            /\ result' = "ok" /\ pc' = "done" /\ served' = "tls" /\ sess' = [sess EXCEPT !.resumed = TRUE]
+            /\ UNCHANGED <<cs, live, todo, rc, pools, i, dflt, afirst, chosen>>
 
-Next == Push \/ Race \/ Accept \/ Hello \/ Scan \/ Decide \/ Auth \/ UpHandshake
+Next == Push \/ Race \/ Return \/ Expire \/ Accept \/ Hello \/ Scan \/ Decide \/ Auth \/ Resume \/ UpHandshake \/ UpResume
 Spec == Init /\ [][Next]_vars
 
 Done == pc = "done"
@@ -263,6 +321,8 @@ TypeOK == /\ pc \in {"accept", "hello", "scan", "auth", "done"}
           /\ served \in {"-", "tls", "plain", "closed"}
           /\ result \in {"-", "ok", "fail", "plain"}
           /\ Srv => chosen \in 0..Len(Ctxs)
+          /\ sess.phase \in {"first", "final"} /\ sess.late \in BOOLEAN /\ sess.resumed \in BOOLEAN
+          /\ (sess.ticket # NoTicket) => (IsRes(cs) /\ sess.phase = "final")
 
 (* every property is stated against RefCtxs / RefCfg: the configuration after the last push *)
 (* two writers: once both finished the stored policy is the one of the LATEST configuration with the LATEST material;
@@ -274,17 +334,21 @@ SelectionIsPick == (Srv /\ Done /\ served = "tls" /\ cs.first = "tls") => chosen
 NeverNotReady   == (Srv /\ chosen # 0) => RefCtxs[chosen].ready
 AuthSound == (Srv /\ Done /\ result = "ok") =>
                LET c == RefCtxs[chosen] p == cs.hello.peer IN
-                 /\ (c.verify /\ c.require) => PeerValid(p, c.ca)
-                 /\ (c.verify /\ p # "none") => PeerValid(p, c.ca)
+                 /\ (c.verify /\ c.require) => PeerValidAt(p, c.ca, sess.late)
+                 /\ (c.verify /\ p # "none") => PeerValidAt(p, c.ca, sess.late)
+(* a resumed handshake succeeds only where a full handshake of the same peer under the policy in force now would *)
+ResumeAsFull == (Srv /\ Done /\ sess.resumed) =>
+                  /\ result = "ok" /\ chosen = Pick(RefCtxs, cs.hello)
+                  /\ AuthExpectAt(RefCtxs[chosen], cs.hello.peer, sess.late) # "fail"
 PlainOnlyIfInspector == (Srv /\ Done /\ result = "plain") => PlainAllowed(RefInsp)
 TlsServedWhenReady   == (Srv /\ Done /\ cs.first = "tls" /\ Pick(RefCtxs, cs.hello) # 0
-                           /\ AuthExpect(RefCtxs[Pick(RefCtxs, cs.hello)], cs.hello.peer) = "ok") => result = "ok"
+                           /\ AuthExpectAt(RefCtxs[Pick(RefCtxs, cs.hello)], cs.hello.peer, sess.late) = "ok") => result = "ok"
 UpSound == (~Srv /\ Done /\ result = "ok") =>
              \/ RefCfg.skip
-             \/ UpChainOK(RefCfg, cs.cert) /\ (RefCfg.sn = <<>> \/ RefCfg.sn \in cs.cert.names)
+             \/ UpChainOK(RefCfg, CertAt(cs.cert, sess.late)) /\ (RefCfg.sn = <<>> \/ RefCfg.sn \in cs.cert.names)
 
 (* one CASE line per case of the universe, consumed by the Go driver *)
-EmitCase == (pc = "accept" /\ todo = cs.upds /\ ~IsRace(cs)) => PrintT(<<"CASE", ToJson(cs)>>)
+EmitCase == (pc = "accept" /\ ~IsRace(cs) /\ (IF IsRes(cs) THEN sess.phase = "first" ELSE todo = cs.upds)) => PrintT(<<"CASE", ToJson(cs)>>)
 (* race cases are emitted once per gate-level schedule, from the run that ignores the lock (Defects = {"ScheduleSpace"}):
    the real code decides which of them are feasible *)
 EmitSched == (IsRace(cs) /\ RaceDone /\ pc = "accept") => PrintT(<<"CASE", ToJson([c |-> cs, sched |-> rc.sch])>>)
